@@ -453,6 +453,11 @@ fn tuples(alpha: &[u64], d: usize) -> Vec<Vec<u64>> {
 
 fn ext_all(ctx: &Ctx) {
     let th = ctx.tier.thorough();
+    {
+        // the same provided methods at the prime field itself, seen as its own degree-1 extension
+        let ts = tuples(&e_alphabet(if th { 40 } else { 24 }), 1);
+        ext_trait_defaults::<F, 1>(ctx, "base", 0, &ts, &BigUint::from(P));
+    }
     ext_field::<QuadraticExtension<F>, 2>(ctx, "ext2", if th { 24 } else { 12 }, 3);
     ext_field::<QuarticExtension<F>, 4>(ctx, "ext4", if th { 5 } else { 4 }, 2);
     ext_field::<QuinticExtension<F>, 5>(ctx, "ext5", if th { 4 } else { 3 }, 2);
